@@ -319,7 +319,7 @@ func implSrcheck(t []string) string {
 					if d, ok := delaysOf[i][j]; ok {
 						time.Sleep(d)
 					}
-					peers[i].Write(ch) //nolint
+					peers[i].Write(ch)               //nolint
 					time.Sleep(2 * time.Millisecond) // one frame at a time: arrival order = history order
 				}
 			}(i)
@@ -451,6 +451,20 @@ func genC16(r *rngT, n int, tier string) {
 		}
 		jobs = append(jobs, job{op: fmt.Sprintf("srcheck %d %s %d %s %s", en, dn, freq, strings.Join(hs, ";"), tr)})
 		stat("c16-sr-" + dn)
+	}
+	{
+		// more distinct senders than any fixed-size table: systems 1..5 x components 1..255 on one channel, then the first ones again
+		// (nothing may be requested twice within 30 s, however many senders there are)
+		defineDialect("common")
+		var as []string
+		for sys := 1; sys <= 5; sys++ {
+			for comp := 1; comp < 256; comp++ { // (the harness's frame writer turns component 0 into 1)
+				as = append(as, fmt.Sprintf("%d.%d.A", sys, comp))
+			}
+		}
+		as = append(as, "1.1.A", "1.2.A", "3.77.A", "5.255.A")
+		jobs = append(jobs, job{op: "srcheck 1 common 4 " + strings.Join(as, ",") + " mem"})
+		stat("c16-sr-many")
 	}
 	if tier == "thorough" && n >= 30 {
 		// the 30 s rule, for real: the same sender again after 31 s (one request more), and another one in between (none)
